@@ -114,6 +114,7 @@ type finding struct {
 func orchestrate() int {
 	prop, tier := os.Getenv("VERIF_PROP"), env("VERIF_TIER", "quick")
 	root := env("VERIF_ROOT", "/verif")
+	out := env("VERIF_OUT", root) // where evidence, replays and scratch go (development aid)
 	d := props.Registry[prop]
 	if d == nil {
 		fmt.Fprintln(os.Stderr, "unknown property", prop)
@@ -180,7 +181,7 @@ func orchestrate() int {
 		ps := core.Summary{Part: p.Name, Exhaustive: true, Outcomes: map[string]int64{}, Extra: map[string]int64{}}
 		var mu sync.Mutex
 		var wg sync.WaitGroup
-		scratch := filepath.Join(root, ".build", "run", prop+"-"+p.Name)
+		scratch := filepath.Join(out, ".build", "run", prop+"-"+p.Name)
 		os.RemoveAll(scratch)
 		os.MkdirAll(scratch, 0o755)
 		for i := 0; i < w; i++ {
@@ -302,13 +303,13 @@ func orchestrate() int {
 		fmt.Printf("violation classes (distinct keys kept): %v\n", kinds)
 	}
 	if replay == nil {
-		os.MkdirAll(filepath.Join(root, "replays"), 0o755)
+		os.MkdirAll(filepath.Join(out, "replays"), 0o755)
 		for i, v := range fresh {
 			if i >= 10 {
 				fmt.Printf("... %d further distinct violations not written out\n", len(fresh)-i)
 				break
 			}
-			path := filepath.Join(root, "replays", fmt.Sprintf("%s-%s.json", prop, core.Hash(v.Key)))
+			path := filepath.Join(out, "replays", fmt.Sprintf("%s-%s.json", prop, core.Hash(v.Key)))
 			b, _ := json.MarshalIndent(v, "", " ")
 			os.WriteFile(path, b, 0o644)
 			fmt.Printf("VIOLATION property=%s replay=%s\n", prop, path)
@@ -327,7 +328,7 @@ func orchestrate() int {
 	}
 
 	if replay == nil {
-		writeEvidence(root, d, tier, seed, wall, &total, partSums, len(fresh), len(knownHit))
+		writeEvidence(out, d, tier, seed, wall, &total, partSums, len(fresh), len(knownHit))
 	}
 	fmt.Printf("%s %s: evaluations=%d programs=%d states=%d transitions=%d outcomes=%d exhaustive=%v violations=%d known=%d wall=%.1fs\n",
 		prop, tier, total.Evaluations, total.Programs, total.States, total.Transitions, len(total.Outcomes), total.Exhaustive, len(fresh), len(knownHit), wall)
